@@ -279,9 +279,9 @@ def main(tier: str, seed: int) -> int:
         for cls in ("plain", "sentinel"):
             for door in ("api", "request", "config"):
                 stimuli.append(_random_stimulus(rng, door, cls, 40 if quick else 70))
-    # the other lists of a firewall are recorded for every stimulus (quick) / one in four (thorough: volume)
+    # the other lists of a firewall are recorded for one stimulus in two (quick) / four (thorough): volume
     for i, stim in enumerate(stimuli):
-        stim["siblings"] = quick or i % 4 == 0
+        stim["siblings"] = i % (2 if quick else 4) == 0
     # 4. run on the real code and record
     common.boot()
     traces: List[Dict[str, Any]] = []
